@@ -261,6 +261,17 @@ func scheds(args map[string]string) error {
 			continue
 		}
 		pick := fmt.Sprint(up[rng.Intn(len(up))])
+		// half of the time another evict-leader / grant-leader scheduler is at work on another store: leader transfers to
+		// that store are paused for everybody
+		var bg uint64
+		if len(up) > 1 && rng.Intn(2) == 0 {
+			for bg == 0 || fmt.Sprint(bg) == pick {
+				bg = up[rng.Intn(len(up))]
+			}
+			if err := w.cl.PauseLeaderTransfer(bg); err != nil {
+				bg = 0
+			}
+		}
 		specs := []struct {
 			typ  string
 			args []string
@@ -301,6 +312,9 @@ func scheds(args map[string]string) error {
 				}
 			}
 			s.Cleanup(w.cl)
+		}
+		if bg != 0 {
+			w.cl.ResumeLeaderTransfer(bg)
 		}
 		cancel()
 	}
